@@ -249,6 +249,19 @@ def accelerator_growth(ctx: Ctx, quick: bool):
                     ctx.drift.append({"what": "growth (Accelerator): real class differs from Accelerator.tla", "history": h, "step": st, "got": list(got)})
                 break
     ctx.notes["growth_accelerator"] = {"histories_replayed": len(hists), "differing_from_model": differ}
+    if not quick:
+        # unbounded energies: Apalache checks the step properties inductively (IndInit => IndInv after one step) - reported, not required
+        import shutil, subprocess, tempfile
+        out = tempfile.mkdtemp(prefix="vf.apa.")
+        try:
+            p = subprocess.run(["apalache-mc", "check", "--init=IndInit", "--inv=IndInv", "--length=1", f"--out-dir={out}", "AccelApa.tla"],
+                               cwd=tlc.SPEC_DIR, capture_output=True, text=True, timeout=900)
+            verdict = "NoError" if "The outcome is: NoError" in p.stdout else ("Error" if "The outcome is: Error" in p.stdout else f"rc={p.returncode}")
+        except Exception as ex:
+            verdict = f"not run: {type(ex).__name__}"
+        finally:
+            shutil.rmtree(out, ignore_errors=True)
+        ctx.notes["growth_accelerator"]["apalache_inductive_step_for_arbitrary_energies"] = verdict
 
 
 def run(ctx: Ctx):
